@@ -90,6 +90,295 @@ fn compile21(params: &Pat, helpers: &[String], body_text: &str) -> Result<V, Str
     sut::compile_modern(&s, Dialect::Cl21.sigil(), ModernOpts::cli_default(21), "*verif*.clsp", &[]).map(|c| c.code).map_err(|e| e.1)
 }
 
+/// A token tree over `gen_text::tokenize` (dots and the `&` / `@` markers stay ordinary atoms).
+#[derive(Clone, Debug, PartialEq)]
+enum TT {
+    A(String),
+    L(Vec<TT>),
+}
+
+fn tt_parse(text: &str) -> Option<TT> {
+    fn rd(toks: &[String], pos: &mut usize) -> Option<TT> {
+        let t = toks.get(*pos)?;
+        *pos += 1;
+        if t == "(" {
+            let mut v = vec![];
+            loop {
+                if toks.get(*pos)? == ")" {
+                    *pos += 1;
+                    return Some(TT::L(v));
+                }
+                v.push(rd(toks, pos)?);
+            }
+        }
+        if t == ")" {
+            return None;
+        }
+        Some(TT::A(t.clone()))
+    }
+    let toks = crate::gen_text::tokenize(text);
+    let mut pos = 0;
+    let r = rd(&toks, &mut pos)?;
+    if pos == toks.len() {
+        Some(r)
+    } else {
+        None
+    }
+}
+
+fn tt_render(t: &TT) -> String {
+    match t {
+        TT::A(a) => a.clone(),
+        TT::L(v) => format!("({})", v.iter().map(tt_render).collect::<Vec<_>>().join(" ")),
+    }
+}
+
+fn tt_head(t: &TT) -> Option<&str> {
+    match t {
+        TT::L(v) => match v.first() {
+            Some(TT::A(h)) => Some(h.as_str()),
+            _ => None,
+        },
+        _ => None,
+    }
+}
+
+fn tt_names(t: &TT, out: &mut std::collections::BTreeSet<String>) {
+    match t {
+        TT::A(a) => {
+            if a != "." && a != "@" && a != "&" && a != "&rest" && !a.starts_with('"') && !a.chars().next().map(|c| c.is_ascii_digit() || c == '-').unwrap_or(true) {
+                out.insert(a.clone());
+            }
+        }
+        TT::L(v) => v.iter().for_each(|x| tt_names(x, out)),
+    }
+}
+
+type NameSet = std::collections::BTreeSet<String>;
+
+/// `t` with every free occurrence of a name of `s` replaced by the quoted atom spelling a renamed
+/// form of it -- what the evaluator's com makes of a let/assign-bound name
+fn tt_subst(t: &TT, s: &NameSet) -> TT {
+    if s.is_empty() {
+        return t.clone();
+    }
+    match t {
+        TT::A(a) if s.contains(a) => TT::L(vec![TT::A("q".into()), TT::A(".".into()), TT::A(format!("\"{a}_$_1\""))]),
+        TT::A(_) => t.clone(),
+        TT::L(v) => {
+            let minus = |names: &NameSet| -> NameSet { s.difference(names).cloned().collect() };
+            match tt_head(t) {
+                Some("q") | Some("quote") => t.clone(),
+                Some("let") if v.len() >= 3 => {
+                    let mut names = NameSet::new();
+                    let binds = match &v[1] {
+                        TT::L(bs) => TT::L(
+                            bs.iter()
+                                .map(|b| match b {
+                                    TT::L(nv) if nv.len() == 2 => {
+                                        tt_names(&nv[0], &mut names);
+                                        TT::L(vec![nv[0].clone(), tt_subst(&nv[1], s)])
+                                    }
+                                    o => o.clone(),
+                                })
+                                .collect(),
+                        ),
+                        o => o.clone(),
+                    };
+                    let inner = minus(&names);
+                    let mut out = vec![v[0].clone(), binds];
+                    out.extend(v[2..].iter().map(|b| tt_subst(b, &inner)));
+                    TT::L(out)
+                }
+                Some("let*") if v.len() >= 3 => {
+                    let mut cur = s.clone();
+                    let binds = match &v[1] {
+                        TT::L(bs) => TT::L(
+                            bs.iter()
+                                .map(|b| match b {
+                                    TT::L(nv) if nv.len() == 2 => {
+                                        let val = tt_subst(&nv[1], &cur);
+                                        let mut names = NameSet::new();
+                                        tt_names(&nv[0], &mut names);
+                                        cur = cur.difference(&names).cloned().collect();
+                                        TT::L(vec![nv[0].clone(), val])
+                                    }
+                                    o => o.clone(),
+                                })
+                                .collect(),
+                        ),
+                        o => o.clone(),
+                    };
+                    let mut out = vec![v[0].clone(), binds];
+                    out.extend(v[2..].iter().map(|b| tt_subst(b, &cur)));
+                    TT::L(out)
+                }
+                Some("assign") | Some("assign-lambda") | Some("assign-inline") if v.len() >= 2 => {
+                    let mut names = NameSet::new();
+                    let n = v.len();
+                    let mut i = 1;
+                    while i + 1 < n {
+                        tt_names(&v[i], &mut names);
+                        i += 2;
+                    }
+                    let inner = minus(&names);
+                    let mut out = vec![v[0].clone()];
+                    let mut i = 1;
+                    while i + 1 < n {
+                        out.push(v[i].clone());
+                        out.push(tt_subst(&v[i + 1], &inner));
+                        i += 2;
+                    }
+                    out.push(tt_subst(&v[n - 1], &inner));
+                    TT::L(out)
+                }
+                Some("lambda") if v.len() >= 3 => {
+                    // captured names of s stop being captured: their value at the capture site is
+                    // the constant anyway
+                    let mut params = NameSet::new();
+                    let plist = match &v[1] {
+                        TT::L(ps) => {
+                            let mut out = vec![];
+                            for (i, p) in ps.iter().enumerate() {
+                                if i == 0 && tt_head(p) == Some("&") {
+                                    if let TT::L(caps) = p {
+                                        let kept: Vec<TT> = caps.iter().filter(|c| !matches!(c, TT::A(a) if s.contains(a))).cloned().collect();
+                                        for c in kept.iter().skip(1) {
+                                            tt_names(c, &mut params);
+                                        }
+                                        if kept.len() > 1 {
+                                            out.push(TT::L(kept));
+                                        }
+                                    }
+                                } else {
+                                    tt_names(p, &mut params);
+                                    out.push(p.clone());
+                                }
+                            }
+                            TT::L(out)
+                        }
+                        o => {
+                            tt_names(o, &mut params);
+                            o.clone()
+                        }
+                    };
+                    let inner = minus(&params);
+                    let mut out = vec![v[0].clone(), plist];
+                    out.extend(v[2..].iter().map(|b| tt_subst(b, &inner)));
+                    TT::L(out)
+                }
+                _ => TT::L(v.iter().enumerate().map(|(i, x)| if i == 0 && matches!(x, TT::A(_)) { x.clone() } else { tt_subst(x, s) }).collect()),
+            }
+        }
+    }
+}
+
+/// The expression as the evaluator's com sees it: inside the branches of every `if`, the names
+/// bound by an enclosing let / let* / assign (not function or lambda parameters) are the quoted
+/// atoms of their renamed spellings.
+fn tt_com_view(t: &TT, bound: &NameSet) -> TT {
+    match t {
+        TT::A(_) => t.clone(),
+        TT::L(v) => {
+            let plus = |names: &NameSet| -> NameSet { bound.union(names).cloned().collect() };
+            match tt_head(t) {
+                Some("q") | Some("quote") => t.clone(),
+                Some("if") if v.len() == 4 => {
+                    let none = NameSet::new();
+                    TT::L(vec![
+                        v[0].clone(),
+                        tt_com_view(&v[1], bound),
+                        tt_com_view(&tt_subst(&v[2], bound), &none),
+                        tt_com_view(&tt_subst(&v[3], bound), &none),
+                    ])
+                }
+                Some("let") if v.len() >= 3 => {
+                    let mut names = NameSet::new();
+                    let binds = match &v[1] {
+                        TT::L(bs) => TT::L(
+                            bs.iter()
+                                .map(|b| match b {
+                                    TT::L(nv) if nv.len() == 2 => {
+                                        tt_names(&nv[0], &mut names);
+                                        TT::L(vec![nv[0].clone(), tt_com_view(&nv[1], bound)])
+                                    }
+                                    o => o.clone(),
+                                })
+                                .collect(),
+                        ),
+                        o => o.clone(),
+                    };
+                    let inner = plus(&names);
+                    let mut out = vec![v[0].clone(), binds];
+                    out.extend(v[2..].iter().map(|b| tt_com_view(b, &inner)));
+                    TT::L(out)
+                }
+                Some("let*") if v.len() >= 3 => {
+                    let mut cur = bound.clone();
+                    let binds = match &v[1] {
+                        TT::L(bs) => TT::L(
+                            bs.iter()
+                                .map(|b| match b {
+                                    TT::L(nv) if nv.len() == 2 => {
+                                        let val = tt_com_view(&nv[1], &cur);
+                                        tt_names(&nv[0], &mut cur);
+                                        TT::L(vec![nv[0].clone(), val])
+                                    }
+                                    o => o.clone(),
+                                })
+                                .collect(),
+                        ),
+                        o => o.clone(),
+                    };
+                    let mut out = vec![v[0].clone(), binds];
+                    out.extend(v[2..].iter().map(|b| tt_com_view(b, &cur)));
+                    TT::L(out)
+                }
+                Some("assign") | Some("assign-lambda") | Some("assign-inline") if v.len() >= 2 => {
+                    let mut names = NameSet::new();
+                    let n = v.len();
+                    let mut i = 1;
+                    while i + 1 < n {
+                        tt_names(&v[i], &mut names);
+                        i += 2;
+                    }
+                    let inner = plus(&names);
+                    let mut out = vec![v[0].clone()];
+                    let mut i = 1;
+                    while i + 1 < n {
+                        out.push(v[i].clone());
+                        out.push(tt_com_view(&v[i + 1], &inner));
+                        i += 2;
+                    }
+                    out.push(tt_com_view(&v[n - 1], &inner));
+                    TT::L(out)
+                }
+                Some("lambda") if v.len() >= 3 => {
+                    // parameters and captures are arguments of the desugared function: com sees them
+                    let mut params = NameSet::new();
+                    tt_names(&v[1], &mut params);
+                    let inner: NameSet = bound.difference(&params).cloned().collect();
+                    let mut out = vec![v[0].clone(), v[1].clone()];
+                    out.extend(v[2..].iter().map(|b| tt_com_view(b, &inner)));
+                    TT::L(out)
+                }
+                _ => TT::L(v.iter().map(|x| tt_com_view(x, bound)).collect()),
+            }
+        }
+    }
+}
+
+/// the expression rewritten to what com makes of it (None when nothing changes)
+pub fn com_view(e: &str) -> Option<String> {
+    let t = tt_parse(e)?;
+    let t2 = tt_com_view(&t, &NameSet::new());
+    if t2 == t {
+        None
+    } else {
+        Some(tt_render(&t2))
+    }
+}
+
 /// the free variables x y z (whole tokens) replaced by the quoted atoms that spell them
 pub fn quote_free(e: &str) -> String {
     crate::gen_text::tokenize(e)
@@ -286,7 +575,17 @@ pub fn judge_text(defs_in: &[String], closed: Option<&str>, open: Option<&str>, 
     }
     // open expression
     let otext = open.unwrap_or("()").to_string();
-    match if open.is_some() { repl_eval(&mut repl, &otext) } else { Res::Nothing } {
+    // the oracle compiles the open expression as a mod whose parameters are named x y z; there a
+    // form headed by x calls the parameter, while in the REPL (where x is not declared) it is the
+    // raise operator: not the same expression, so nothing is compared
+    let raise_shadowed = {
+        let toks = crate::gen_text::tokenize(&otext);
+        toks.windows(2).any(|w| w[0] == "(" && w[1] == "x")
+    };
+    if open.is_some() && raise_shadowed {
+        st.label("open:raise-operator-shadowed-by-parameter-x(skip)");
+    }
+    match if open.is_some() && !raise_shadowed { repl_eval(&mut repl, &otext) } else { Res::Nothing } {
         Res::Constant(v) => {
             st.label("open:reduced-to-constant");
             // a constant residual: the original must return it wherever it returns
@@ -518,6 +817,24 @@ impl Prop for C16Prop {
                 match (repl_eval(&mut r1, e), repl_eval(&mut r2, &renamed)) {
                     (Res::Constant(a), Res::Constant(b)) if a != b => Some(id),
                     (Res::Constant(a), _) => {
+                        // or the constant is exactly what the expression gives, as a compiled
+                        // program, once every let/assign-bound name inside the branches of an if
+                        // is replaced by the atom of its (renamed) spelling -- com's view; only
+                        // the shape or sign of such a value matters here, else the counter test
+                        // above would have seen it (expressions without free variables only)
+                        let has_free = crate::gen_text::tokenize(e).iter().any(|t| matches!(t.as_str(), "x" | "y" | "z"));
+                        if !has_free {
+                            if let Some(view) = com_view(e) {
+                                let helpers: Vec<String> = defs.lines().map(|l| l.to_string()).filter(|l| !l.trim().is_empty()).collect();
+                                if let Ok(code) = compile21(&Pat::Nil, &helpers, &view) {
+                                    if let Ok(b) = sut::run_consensus(&code, &nil(), RUN_COST) {
+                                        if b == a {
+                                            return Some(id);
+                                        }
+                                    }
+                                }
+                            }
+                        }
                         // or the constant is what the expression gives when each free variable IS
                         // the atom that spells its name (renaming cannot show that when only the
                         // shape of the value matters, as in (l z))
